@@ -99,6 +99,7 @@ type FuncVC struct {
 	pureMode int
 	lockSnap *State
 	execKeys []string
+	loopDescCount map[string]int
 	freshRefs map[string]bool
 }
 
